@@ -50,6 +50,153 @@ theorem readCommand_named {f : Nat} {tol : Bool} {mode : Mode} {ts : List Tok} {
       · rw [hn, cmdSig_begin, cmdMode_begin] at ha; exact ha
       · rw [hn, cmdSig_end, cmdMode_end] at ha; exact ha
 
+/-- the look-ahead of `read_env`: a command named `end` read with signature (1, 0) -/
+theorem readCommand_end {f : Nat} {tol : Bool} {mode : Mode} {ts : List Tok} {n : Tok}
+    {args : List Expr} {ts1 : List Tok}
+    (h : readCommand f 1 0 tol mode ts = .ok ((n, args), ts1)) (hn : n.text = sEnd) :
+    ∃ r g, ts = n :: r ∧ readArgs g 1 0 tol mode r = .ok (args, ts1) := by
+  cases f with
+  | zero => simp [readCommand] at h
+  | succ g =>
+    unfold readCommand at h
+    cases ts with
+    | nil =>
+      simp only at h
+      obtain ⟨args', ts2, _, h⟩ := Res.bind_eq_ok.mp h
+      simp only [Except.ok.injEq, Prod.mk.injEq] at h
+      obtain ⟨⟨rfl, rfl⟩, rfl⟩ := h
+      simp [sEnd] at hn
+    | cons n' r =>
+      simp only at h
+      obtain ⟨args', ts2, ha, h⟩ := Res.bind_eq_ok.mp h
+      simp only [Except.ok.injEq, Prod.mk.injEq] at h
+      obtain ⟨⟨rfl, rfl⟩, rfl⟩ := h
+      refine ⟨r, g, rfl, ?_⟩
+      rw [hn, cmdMode_end] at ha
+      simpa [cmdSig] using ha
+
+theorem readArgOpt_zero {g : Nat} {tol : Bool} {mode : Mode} {ts : List Tok}
+    {r : (List Expr × Int) × List Tok} (h : readArgOpt g 0 tol mode ts = .ok r) : r = (([], 0), ts) := by
+  cases g with
+  | zero => simp [readArgOpt] at h
+  | succ g' =>
+    unfold readArgOpt at h
+    rw [if_pos (by decide)] at h
+    exact (Except.ok.inj h).symm
+
+theorem readArgReq_zero {g : Nat} {tol : Bool} {mode : Mode} {ts : List Tok}
+    {r : (List Expr × Int) × List Tok} (h : readArgReq g 0 tol mode ts = .ok r) : r = (([], 0), ts) := by
+  cases g with
+  | zero => simp [readArgReq] at h
+  | succ g' =>
+    unfold readArgReq at h
+    rw [if_pos (by decide)] at h
+    exact (Except.ok.inj h).symm
+
+/-- one mandatory argument: either nothing could be read (no token left after the spacer) or
+exactly one argument was read -/
+theorem readArgReq_one {g : Nat} {tol : Bool} {mode : Mode} {ts : List Tok} {gs : List Expr}
+    {n' : Int} {rest : List Tok} (h : readArgReq g 1 tol mode ts = .ok ((gs, n'), rest)) :
+    (gs = [] ∧ n' = 1 ∧ rest = ts ∧ (readSpacer ts).2 = []) ∨ (∃ x, gs = [x] ∧ n' = 0) := by
+  cases g with
+  | zero => simp [readArgReq] at h
+  | succ g' =>
+    unfold readArgReq at h
+    rw [if_neg (by decide)] at h
+    cases hs : (readSpacer ts).2 with
+    | nil =>
+      rw [hs] at h
+      simp only [Except.ok.injEq, Prod.mk.injEq] at h
+      obtain ⟨⟨rfl, rfl⟩, rfl⟩ := h
+      exact .inl ⟨rfl, rfl, rfl, rfl⟩
+    | cons o r =>
+      rw [hs] at h
+      simp only at h
+      right
+      -- every branch ends with `readArgReq g' (1 - 1)`, which reads nothing
+      have fin : ∀ (x : Expr) (tsx : List Tok),
+          ((readArgReq g' (1 - 1) tol mode tsx).bind fun gn ts2 =>
+            (Except.ok ((x :: gn.1, gn.2), ts2) : Res (List Expr × Int))) = .ok ((gs, n'), rest) →
+          ∃ x, gs = [x] ∧ n' = 0 := by
+        intro x tsx hx
+        obtain ⟨⟨gl, gi⟩, ts2', hr, hx⟩ := Res.bind_eq_ok.mp hx
+        have hz := readArgReq_zero hr
+        simp only [Prod.mk.injEq] at hz
+        obtain ⟨⟨hgl, hgi⟩, _⟩ := hz
+        simp only [Except.ok.injEq, Prod.mk.injEq] at hx
+        obtain ⟨⟨hgs, hn⟩, _⟩ := hx
+        exact ⟨x, by rw [← hgs, hgl], by rw [← hn, hgi]⟩
+      by_cases hb : (o.cat == TC.GroupBegin) = true
+      · rw [if_pos hb] at h
+        obtain ⟨x, tsx, _, hk⟩ := Res.bind_eq_ok.mp h
+        exact fin x tsx hk
+      · rw [if_neg hb] at h
+        rw [if_pos (by decide)] at h
+        by_cases hesc : (o.cat == TC.Escape) = true
+        · rw [if_pos hesc] at h
+          obtain ⟨na, tsx, _, hk⟩ := Res.bind_eq_ok.mp h
+          exact fin _ tsx hk
+        · rw [if_neg hesc] at h
+          exact fin _ r h
+
+/-- signature (1, 0) yields at most one argument -/
+theorem readArgs_one {g : Nat} {tol : Bool} {mode : Mode} {ts : List Tok} {args : List Expr}
+    {rest : List Tok} (h : readArgs g 1 0 tol mode ts = .ok (args, rest)) : args.length ≤ 1 := by
+  cases g with
+  | zero => simp [readArgs] at h
+  | succ g1 =>
+    unfold readArgs at h
+    rw [if_neg (by decide)] at h
+    obtain ⟨⟨a1, n1⟩, ts1, h1, hA⟩ := Res.bind_eq_ok.mp h
+    clear h
+    have hz1 := readArgOpt_zero h1
+    simp only [Prod.mk.injEq] at hz1
+    obtain ⟨⟨ha1, hn1⟩, hts1⟩ := hz1
+    obtain ⟨⟨a2, n2⟩, ts2, h2, hB⟩ := Res.bind_eq_ok.mp hA
+    clear hA
+    obtain ⟨⟨a3, n3⟩, ts3, h3, hC⟩ := Res.bind_eq_ok.mp hB
+    clear hB
+    obtain ⟨⟨a4, n4⟩, ts4, h4, hD⟩ := Res.bind_eq_ok.mp hC
+    clear hC
+    simp only [Except.ok.injEq, Prod.mk.injEq] at hD
+    obtain ⟨hargs, _⟩ := hD
+    simp only at h3 h4
+    have e3 : a3 = [] ∧ ts3 = ts2 := by
+      by_cases hb : nextIs TC.BracketBegin ts2 = true
+      · rw [if_pos hb, hn1] at h3
+        have hz := readArgOpt_zero h3
+        simp only [Prod.mk.injEq] at hz
+        exact ⟨hz.1.1, hz.2⟩
+      · rw [if_neg hb] at h3
+        simp only [Except.ok.injEq, Prod.mk.injEq] at h3
+        exact ⟨h3.1.1.symm, h3.2.symm⟩
+    obtain ⟨ha3, hts3⟩ := e3
+    rw [hts1] at h2
+    have e4 : a2.length + a4.length ≤ 1 := by
+      rcases readArgReq_one h2 with ⟨ha2, hn2, hts2, hs⟩ | ⟨x, ha2, hn2⟩
+      · have hg : nextIs TC.GroupBegin ts3 = false := by
+          cases hn : nextIs TC.GroupBegin ts3 with
+          | false => rfl
+          | true =>
+            obtain ⟨o, r3, hs', _⟩ := nextIs_readSpacer (by decide) hn
+            rw [hts3, hts2, hs] at hs'; cases hs'
+        rw [hg] at h4
+        simp only [Bool.false_eq_true, if_false, Except.ok.injEq, Prod.mk.injEq] at h4
+        rw [ha2, ← h4.1.1]; simp
+      · have ha4 : a4 = [] := by
+          by_cases hb : nextIs TC.GroupBegin ts3 = true
+          · rw [if_pos hb, hn2] at h4
+            have hz := readArgReq_zero h4
+            simp only [Prod.mk.injEq] at hz
+            exact hz.1.1
+          · rw [if_neg hb] at h4
+            simp only [Except.ok.injEq, Prod.mk.injEq] at h4
+            exact h4.1.1.symm
+        rw [ha2, ha4]; simp
+    rw [← hargs, ha1, ha3]
+    simp only [List.nil_append, List.length_append]
+    exact e4
+
 theorem readSkipEnv_shape {name : Str} {args : List Expr} {pos : Int} {ts : List Tok} {e : Expr}
     {rest : List Tok} (h : readSkipEnv name args pos ts = .ok (e, rest)) :
     ∃ body bpos, e = .nenv name args [.text body bpos] pos := by
@@ -81,19 +228,13 @@ theorem readEnv_shape {f : Nat} {name : Str} {args : List Expr} {pos : Int} {ski
         exact ⟨_, h.1.symm⟩
       · rw [if_neg ht] at h; cases h
     · rw [if_neg herr] at h
-      cases hs : (readSpacer (ts1.drop 2)).2 with
-      | nil => rw [hs] at h; cases h
-      | cons o r3 =>
-        rw [hs] at h
+      cases ts1 with
+      | nil => cases h
+      | cons t0 r0 =>
         simp only at h
-        cases hk : gkindOfBegin o.cat with
-        | none => rw [hk] at h; cases h
-        | some k =>
-          rw [hk] at h
-          simp only at h
-          obtain ⟨g', ts2, ha, h⟩ := Res.bind_eq_ok.mp h
-          simp only [Except.ok.injEq, Prod.mk.injEq] at h
-          exact ⟨_, h.1.symm⟩
+        obtain ⟨na, ts2, ha, h⟩ := Res.bind_eq_ok.mp h
+        simp only [Except.ok.injEq, Prod.mk.injEq] at h
+        exact ⟨_, h.1.symm⟩
 
 theorem envError_false {name : Str} {ea : Option (List Expr)} (h : envError name ea = false) :
     ∃ a0 as, ea = some (a0 :: as) ∧ a0.string = name := by
@@ -415,7 +556,7 @@ theorem cs_readEnvBody : ∀ skip tol mode ts es ea rest,
     (∀ x, memStr x skip = true → memStr x skip0 = true) → noBareL es = true →
     Cons tol ts (serL es) rest ∧
     (∀ eargs, ea = some eargs → ∃ esc n r g rest', rest = esc :: n :: r ∧ esc.cat = .Escape ∧
-        n.text = sEnd ∧ readArgs g (-1) (-1) tol mode r = .ok (eargs, rest')) := by
+        n.text = sEnd ∧ readCommand g 1 0 tol mode (n :: r) = .ok ((n, eargs), rest')) := by
   intro skip tol mode ts es ea rest h hy hsk hnb
   obtain ⟨cE, cI, cME, cMB, cEnv, cEB, cC, cAs, cAO, cAR, cA, cAB⟩ := ih
   unfold readEnvBody at h
@@ -424,7 +565,7 @@ theorem cs_readEnvBody : ∀ skip tol mode ts es ea rest,
         = .ok ((es, ea), rest) → Hyp skip0 (t :: r) →
       Cons tol (t :: r) (serL es) rest ∧
       (∀ eargs, ea = some eargs → ∃ esc n r g rest', rest = esc :: n :: r ∧ esc.cat = .Escape ∧
-        n.text = sEnd ∧ readArgs g (-1) (-1) tol mode r = .ok (eargs, rest')) := by
+        n.text = sEnd ∧ readCommand g 1 0 tol mode (n :: r) = .ok ((n, eargs), rest')) := by
     intro t r h hy
     obtain ⟨e, ts1, he, h⟩ := Res.bind_eq_ok.mp h
     obtain ⟨⟨bes, bea⟩, ts2, hb, h⟩ := Res.bind_eq_ok.mp h
@@ -453,8 +594,8 @@ theorem cs_readEnvBody : ∀ skip tol mode ts es ea rest,
         simp only [Option.some.injEq] at h'
         subst h'
         have hn : n.text = sEnd := by simpa using hend
-        obtain ⟨r', g, rfl, ha⟩ := readCommand_named hc (.inr hn)
-        exact ⟨t, n, r', g, ts', rfl, by simpa using hesc, hn, ha⟩
+        obtain ⟨r', g, rfl, _⟩ := readCommand_end hc hn
+        exact ⟨t, n, r', f, ts', rfl, by simpa using hesc, hn, hc⟩
       · rw [if_neg hend] at h
         exact step t r h hy
     · rw [if_neg hesc] at h
@@ -481,50 +622,43 @@ theorem cs_readEnv : ∀ name args pos skip tol mode ts e rest,
       exact c1.closer _ ht (.inr (.inr ⟨name, rfl⟩))
     · rw [if_neg ht] at h; cases h
   · rw [if_neg herr] at h
-    cases hs : (readSpacer (ts1.drop 2)).2 with
-    | nil => rw [hs] at h; cases h
-    | cons o r3 =>
-      rw [hs] at h
+    cases ts1 with
+    | nil => cases h
+    | cons t0 r0 =>
       simp only at h
-      cases hk : gkindOfBegin o.cat with
-      | none => rw [hk] at h; cases h
-      | some k =>
-        rw [hk] at h
-        simp only at h
-        obtain ⟨g, ts2, ha, h⟩ := Res.bind_eq_ok.mp h
-        simp only [Except.ok.injEq, Prod.mk.injEq] at h
-        obtain ⟨rfl, rfl⟩ := h
-        refine ⟨body, rfl, fun hnb => ?_⟩
-        obtain ⟨c1, hea⟩ := cEB _ _ _ _ _ _ _ hb hy hsk hnb
-        obtain ⟨a0, as', rfl, hname⟩ := envError_false (by simpa using herr)
-        obtain ⟨esc, n, r, g', rest', rfl, hesc, hn, hargs⟩ := hea _ rfl
-        have hy1 := hy.ofCons c1
-        obtain ⟨⟨b, p, rfl⟩, _, hnb0⟩ := hy1.envPlain [] esc n r rfl hesc (.inr hn) _ _ _ _ _ _ hargs
-        obtain ⟨o', r3', k', g'', ts', hs', hk', ha'⟩ := readArgs_first hargs
-        simp only [List.drop_succ_cons, List.drop_zero] at hs
-        rw [hs] at hs'
-        simp only [List.cons.injEq] at hs'
-        obtain ⟨rfl, rfl⟩ := hs'
-        rw [hk] at hk'
-        simp only [Option.some.injEq] at hk'
-        subst hk'
-        have hdet := readArg_fuel_det ha ha'
-        simp only [Prod.mk.injEq] at hdet
-        obtain ⟨rfl, rfl⟩ := hdet
-        obtain ⟨c2, _⟩ := group_after_spacer skip0 f ih' hy1.tail.tail hs hk ha hnb0
-        have c3 := Cons.cons esc (Cons.cons n c2)
-        have hesc' : (esc.cat == TC.Escape) = true := by simpa using hesc
-        rw [text_of_escape (hy1.shaped esc (by simp)) hesc', hn] at c3
-        have hk2 : k = .brace := by
-          obtain ⟨body', hg, _⟩ := cA _ _ _ _ _ _ _ ha (hy1.tail.tail.afterSpacer hs).tail
-          simp only [Expr.group.injEq] at hg
-          exact hg.1.symm
-        subst hk2
-        have hser : [92] ++ (sEnd ++ ser (Expr.group .brace b p)) = endMarker name := by
-          simp only [Expr.string, Expr.body] at hname
-          simp [ser, GKind.open, GKind.close, endMarker, strEnd_eq, hname]
-        rw [hser] at c3
-        exact c1.trans c3
+      obtain ⟨na, ts2, ha, h⟩ := Res.bind_eq_ok.mp h
+      simp only [Except.ok.injEq, Prod.mk.injEq] at h
+      obtain ⟨rfl, rfl⟩ := h
+      refine ⟨body, rfl, fun hnb => ?_⟩
+      obtain ⟨c1, hea⟩ := cEB _ _ _ _ _ _ _ hb hy hsk hnb
+      obtain ⟨a0, as', rfl, hname⟩ := envError_false (by simpa using herr)
+      obtain ⟨esc, n, r, g', rest', hrest, hesc, hn, hpeek⟩ := hea _ rfl
+      simp only [List.cons.injEq] at hrest
+      obtain ⟨rfl, rfl⟩ := hrest
+      -- the consumption re-reads what the look-ahead read
+      have hdet := readCommand_fuel_det ha hpeek
+      simp only [Prod.mk.injEq] at hdet
+      obtain ⟨rfl, rfl⟩ := hdet
+      have hy1 := hy.ofCons c1
+      obtain ⟨r', g'', hr', hargs⟩ := readCommand_end hpeek hn
+      simp only [List.cons.injEq, true_and] at hr'
+      subst hr'
+      obtain ⟨⟨b, p, rfl⟩, _, hnb0⟩ := hy1.envPlain [] t0 n r rfl hesc (.inr hn) _ _ _ _ _ _ _ _ hargs
+      have hone := readArgs_one hargs
+      have has : as' = [] := by
+        cases as' with
+        | nil => rfl
+        | cons x xs => simp at hone
+      subst has
+      obtain ⟨cc, _⟩ := cC _ _ _ _ _ _ _ _ ha hy1.tail
+      have c3 := Cons.cons t0 (cc hnb0)
+      have hesc' : (t0.cat == TC.Escape) = true := by simpa using hesc
+      rw [text_of_escape (hy1.shaped t0 (by simp)) hesc', hn] at c3
+      have hser : [92] ++ (sEnd ++ serL [Expr.group .brace b p]) = endMarker name := by
+        simp only [Expr.string, Expr.body] at hname
+        simp [serL, ser, GKind.open, GKind.close, endMarker, strEnd_eq, hname]
+      rw [hser] at c3
+      exact c1.trans c3
 
 theorem cs_readExpr : ∀ skip tol mode ts e rest, readExpr (f+1) skip tol mode ts = .ok (e, rest) →
     Hyp skip0 ts → (∀ x, memStr x skip = true → memStr x skip0 = true) → noBare e = true →
@@ -589,7 +723,7 @@ theorem cs_readExpr : ∀ skip tol mode ts e rest, readExpr (f+1) skip tol mode 
               obtain ⟨r', g, hts, hargs⟩ := readCommand_named hc (.inl hn)
               subst hts
               obtain ⟨⟨b, p, rfl⟩, hst, hnb0⟩ := hy.envPlain [] c n r' rfl (by simpa using hesc) (.inl hn)
-                _ _ _ _ _ _ hargs
+                _ _ _ _ _ _ _ _ hargs
               have hname : strip (Expr.group .brace b p).string = serL b := by
                 rw [hst]; rfl
               rw [hname] at h
